@@ -645,6 +645,25 @@ func run(e *core.Env) {
 				trial(kind, "replayed", linkXV, append([]byte(nil), orig...), hop)
 				e.Fault("replay")
 			}
+			// (c'') Wave 14: a tampered copy of the ping V has just accepted. Its sequence stamp is the
+			// newest one V knows from X - whatever V does with frames it takes for repetitions, an
+			// altered body (or signature) must not get handled.
+			if tp.Chance(1, 2) {
+				apx := 0
+				if f, err := mesh.ParseCrossing(parser, orig); err == nil {
+					apx = len(f.AppendixData())
+					f.ReturnToPool()
+				}
+				if span := len(orig) - apx - msgStart; span > 0 {
+					for k, n := 0, 1+tp.Intn(3); k < n; k++ {
+						mut := append([]byte(nil), orig...)
+						mut[msgStart+tp.Intn(span)] ^= 1 << tp.Intn(8)
+						trial(kind, "tampered-after-delivery", linkXV, mut, false)
+						e.Fault("corrupt_bit")
+					}
+					e.Probe("tampered_copy_of_the_newest_accepted_ping")
+				}
+			}
 			// (c+) replay at an exact distance: the ping just handled was sealed in the encrypted
 			// priority class (error reports travel that way once keys exist) and is the newest frame
 			// of that class V has from X. X then seals frames that are lost, so that the next frame V
